@@ -36,6 +36,9 @@ def run(ctx):
     w = vlib.run_tlc(ctx, "mc/MC_C17.tla", "mc/MC_C17_witness.cfg", workers=4, timeout=600, keep_vec=False)
     if w.violated != "Tally":
         raise vlib.ToolError("MC_C17_witness: a split read-modify-write of the tally no longer violates Tally - the model lost its teeth")
+    # unbounded: TLAPS proves, for ANY set of files, threads and outcomes, that the pipeline model hands out every file at
+    # most once and, once the run is over, exactly once (spec/proofs/WorkerProofs.tla: inductive invariant HandedOut)
+    vlib.run_tlapm(ctx, "proofs/WorkerProofs.tla")
     outdir = ctx.path("runs")
     summ = vlib.agv_ok(ctx, ["drive", "c17", "--seed", ctx.seed, "--tier", ctx.tier, "--out", outdir], timeout=3000)
     files = [os.path.join(ctx.work, f) if not f.startswith("/") else f for f in summ["files"]]
